@@ -8,6 +8,7 @@ import (
 	"context"
 	"errors"
 	"fmt"
+	"io"
 	"os"
 	"os/exec"
 	"path/filepath"
@@ -35,6 +36,46 @@ type Case struct {
 	Binary string `json:"binary"` // "v5" or "legacy"
 	Stdin  string `json:"stdin"`
 	Files  []File `json:"files"`
+	// Pad: that many spaces are appended to the stdin text (insignificant
+	// whitespace; makes documents of hundreds of kilobytes without bloating the case).
+	Pad int `json:"stdin_padding,omitempty"`
+	// Chunks > 1: stdin is written in that many pieces with a short pause between them.
+	Chunks int `json:"stdin_chunks,omitempty"`
+}
+
+func (c Case) stdin() string {
+	if c.Pad > 0 {
+		return c.Stdin + strings.Repeat(" ", c.Pad)
+	}
+	return c.Stdin
+}
+
+// chunkReader hands its data out in n pieces, pausing before each but the first.
+type chunkReader struct {
+	data []byte
+	n    int
+	done int
+}
+
+func (r *chunkReader) Read(p []byte) (int, error) {
+	if len(r.data) == 0 {
+		return 0, io.EOF
+	}
+	if r.done > 0 {
+		time.Sleep(2 * time.Millisecond)
+	}
+	left := r.n - r.done
+	if left < 1 {
+		left = 1
+	}
+	k := (len(r.data) + left - 1) / left
+	if k > len(p) {
+		k = len(p)
+	}
+	copy(p, r.data[:k])
+	r.data = r.data[k:]
+	r.done++
+	return k, nil
 }
 
 func drawFor(binary string) func(t *rapid.T) Case {
@@ -50,6 +91,12 @@ func drawFor(binary string) func(t *rapid.T) Case {
 			c.Stdin = gen.Spell(t, doc, "sp") + "\n"
 		default:
 			c.Stdin = doc.Text(false)
+		}
+		if c.Stdin != "" && gen.OneIn(t, 12, "big") {
+			c.Pad = rapid.SampledFrom([]int{5000, 70000, 300000, 1500000}).Draw(t, "pad")
+		}
+		if gen.OneIn(t, 10, "chunked") {
+			c.Chunks = gen.Uniform(t, 2, 4, "chunks")
 		}
 		g := gen.NewOpGen(true).Calm()
 		if binary == "legacy" {
@@ -135,7 +182,7 @@ func fold(c Case, order []int) expect {
 		}
 		patches = append(patches, ap)
 	}
-	doc := []byte(c.Stdin)
+	doc := []byte(c.stdin())
 	for n, ap := range patches {
 		var err error
 		e.panic = ev.Safe(func() { doc, err = ap(doc) })
@@ -193,7 +240,11 @@ func runCLI(c Case) (result, error) {
 	ctx, cancel := context.WithTimeout(context.Background(), 60*time.Second)
 	defer cancel()
 	cmd := exec.CommandContext(ctx, bin, args...)
-	cmd.Stdin = strings.NewReader(c.Stdin)
+	if c.Chunks > 1 {
+		cmd.Stdin = &chunkReader{data: []byte(c.stdin()), n: c.Chunks}
+	} else {
+		cmd.Stdin = strings.NewReader(c.stdin())
+	}
 	var so, se bytes.Buffer
 	cmd.Stdout, cmd.Stderr = &so, &se
 	err = cmd.Run()
